@@ -155,6 +155,8 @@ let body lines =
     (* fault-injection sweep over every element construction point: oracle-only *)
     | "thr" -> List.iter (fun l -> match words l with
         | ["sweep"; _; _] -> print_string "thr ok 1\n" | _ -> print_string "badop\n") ops
+    (* trivially destructible element with observable copy/move constructors: oracle-only *)
+    | "tp" -> List.iter (fun l -> match words l with ["run"; _] -> print_string "tp ok\n" | _ -> print_string "badop\n") ops
     | "il" -> List.iter (fun l -> match words l with
         | ["fwd"; _; _] | ["one"; _] -> print_string "il ok\n" | _ -> print_string "badop\n") ops
     | _ -> print_string "badtype\n"
